@@ -43,6 +43,8 @@ struct ParsedRequest {
     port: u16,
     path: String,
     is_connect: bool,
+    /// Default port of the request's scheme (what a Host header may leave out)
+    default_port: u16,
     headers: Vec<String>,
     body: Vec<u8>,
 }
@@ -216,6 +218,11 @@ fn parse_http_request(header: &str, body: Vec<u8>) -> Result<ParsedRequest> {
         .collect();
 
     let (host, port, path, is_connect) = determine_target(method, target, &header_lines)?;
+    let default_port = if is_connect || target.starts_with("https://") {
+        443
+    } else {
+        80
+    };
 
     Ok(ParsedRequest {
         method: method.to_string(),
@@ -224,6 +231,7 @@ fn parse_http_request(header: &str, body: Vec<u8>) -> Result<ParsedRequest> {
         port,
         path,
         is_connect,
+        default_port,
         headers: header_lines,
         body,
     })
@@ -324,10 +332,17 @@ fn build_forward_request(req: &ParsedRequest) -> Result<Vec<u8>> {
     );
     new_request.extend_from_slice(request_line.as_bytes());
 
-    let host_header_value = if req.port == 80 || req.port == 443 {
-        req.host.clone()
+    // An IPv6 literal keeps its brackets, and the port may only be left out when it is
+    // the default of the request's own scheme (http://h:443/ is not the same as http://h/).
+    let host_for_header = if req.host.contains(':') {
+        format!("[{}]", req.host)
     } else {
-        format!("{}:{}", req.host, req.port)
+        req.host.clone()
+    };
+    let host_header_value = if req.port == req.default_port {
+        host_for_header
+    } else {
+        format!("{}:{}", host_for_header, req.port)
     };
 
     let mut host_written = false;
